@@ -262,7 +262,8 @@ def gen_history(sch, root, rng, nrec, big=False, tiny=False, detour=True, copies
             c = rng.below(3)
             other = g.value(t) if c == 0 else g.mutate(t, prev if c == 1 else cur)
             ops.append({'op': 'set', 'v': other, 'freeze': rng.chance(1, 2)})
-        ops.append({'op': 'set', 'v': cur, 'freeze': rng.chance(1, 2), 'copy': bool(copies and rng.chance(1, 4) and not g._has_append_array(t))})
+        ops.append({'op': 'set', 'v': cur, 'freeze': rng.chance(1, 2), 'copy': bool(copies and rng.chance(1, 4) and not g._has_append_array(t)),
+                    'reuse': i % 2 == 0})      # (with freeze) a dictionary struct value seen before is handed over as the same frozen object
         ops.append({'op': 'w'})
         prev = cur
         if rng.chance(1, 6):
